@@ -385,6 +385,24 @@ func (t *Teamserver) ListenerServiceExc2Add(Name, ExEndpoint string, client *ser
 	return nil
 }
 
+// ListenerServiceExc2Remove
+// removes the external c2 listeners, and their endpoints, that a service client registered.
+func (t *Teamserver) ListenerServiceExc2Remove(client *service.ClientService) {
+	var kept []*Listener
+
+	for _, listener := range t.Listeners {
+		if ext, ok := listener.Config.(*handlers.External); ok && ext.Data != nil {
+			if owner, ok := ext.Data["client"].(*service.ClientService); ok && owner == client {
+				t.EndpointRemove(ext.Config.Endpoint)
+				continue
+			}
+		}
+		kept = append(kept, listener)
+	}
+
+	t.Listeners = kept
+}
+
 // ListenerStartNotify
 // Notifies the clients of a new listener that is available to use.
 func (t *Teamserver) ListenerStartNotify(Listener map[string]any) {
